@@ -6,6 +6,7 @@ import GqlgenVerif.Gen.CollectAlias
 import GqlgenVerif.Gen.WsLoop
 import GqlgenVerif.Gen.WsHolder
 import GqlgenVerif.Gen.IntroStores
+import GqlgenVerif.Gen.ErrValues
 /-! Line-protocol driver for C07: runs `Model/ServerState` (configured from the regenerated
 `Gen/PoolReset.lean`) on the request histories of the Go harness.
 
@@ -41,6 +42,9 @@ holderwitness                               `none`, or a session on which the re
 introwitness                                `none`, or what the regenerated facts about package introspection let a request do
                                             to the schema (OfType clearing NonNull on the schema's node; stores / mutating calls
                                             that reach it)
+errwitness                                  `none`, or a history of failing requests on which the regenerated recover func /
+                                            ErrorOnPath guard (Gen/ErrValues.lean) answer a request with a path that is
+                                            not the path of its own failing resolver; or the package-level error values found
 `req` answers `<class> [params] apq=<digest> qc=<digest> | spec=<same|DIFF> poolzero=<0|1> pool=<n>`.
 -/
 open GqlgenVerif GqlgenVerif.SS
@@ -298,6 +302,33 @@ def introWitness : String :=
     s!"mutating-call-on-schema {" ; ".intercalate (Gen.IntroStores.mutatingCallsOnShared.map fun s => s.1 ++ ": " ++ s.2)}"
   else "none"
 
+/-- `errwitness` op: the error-heap model, configured from the regenerated facts, on a grid of histories / schedules -/
+def errWitness : String :=
+  let paths : List ErrHeap.Path := [["a"], ["b"], ["nodes", "1", "fail"]]
+  let hists : List (List ErrHeap.Ev) :=
+    (paths.flatMap fun p => (paths.filter (· != p)).flatMap fun q =>
+      [[.fieldPanic 1 p, .respond 1, .fieldPanic 2 q, .respond 2],
+       [.fieldPanic 1 p, .fieldPanic 2 q, .respond 1, .respond 2],
+       [.fieldPanic 1 p, .respond 1, .serverPanic 2],
+       [.serverPanic 1, .fieldPanic 2 q, .fieldPanic 2 p, .respond 2]])
+  let showEv : ErrHeap.Ev → String
+    | .fieldPanic r p => s!"request {r}: resolver at {p} panics"
+    | .serverPanic r => s!"request {r}: panic reaches the server-level recover"
+    | .respond r => s!"request {r}: response built"
+  let bad := Gen.ErrValues.defaultRecoverReturns.findSome? fun src => hists.findSome? fun evs =>
+    let got := ErrHeap.run src Gen.ErrValues.errorOnPathGuard evs
+    if got != ErrHeap.spec evs then
+      some s!"recover func returns {repr src}, ErrorOnPath guard {repr Gen.ErrValues.errorOnPathGuard}: history [{"; ".intercalate (evs.map showEv)}] is answered with error paths {got}, the requests' own failures are {ErrHeap.spec evs}"
+    else none
+  match bad with
+  | some b => b
+  | none =>
+    if !Gen.ErrValues.pkgLevelGqlErrors.isEmpty then
+      s!"package-level-error-value {" ; ".intercalate (Gen.ErrValues.pkgLevelGqlErrors.map fun v => v.1 ++ "." ++ v.2.1 ++ " (" ++ v.2.2 ++ ")")}"
+    else if !(Gen.ErrValues.defaultPresenterReturns.all ErrHeap.Source.isOwn) then
+      s!"presenter-returns-shared-value {repr Gen.ErrValues.defaultPresenterReturns}"
+    else "none"
+
 /-- `collectwitness` op -/
 def collectWitness : String :=
   match CollectAlias.armSem Gen.CollectAlias.fieldArm with
@@ -340,6 +371,7 @@ def stepD (d : DState) (line : String) : DState × String :=
   | ["collectwitness"] => (d, collectWitness)
   | ["holderwitness"] => (d, holderWitness.replace "\n" " ")
   | ["introwitness"] => (d, introWitness.replace "\n" " ")
+  | ["errwitness"] => (d, errWitness.replace "\n" " ")
   | "wsh" :: toks =>
     match wshEvents toks with
     | some evs => (d, wshRun Gen.WsHolder.policy evs)
